@@ -46,6 +46,17 @@ def _is_mutable_value(v: Optional[ast.AST]) -> bool:
     return False
 
 
+def _is_empty_container(v) -> bool:
+    if isinstance(v, (ast.List, ast.Set)) and not v.elts:
+        return True
+    if isinstance(v, ast.Dict) and not v.keys:
+        return True
+    if isinstance(v, ast.Call) and not v.args and not v.keywords:
+        nm = v.func.attr if isinstance(v.func, ast.Attribute) else (v.func.id if isinstance(v.func, ast.Name) else "")
+        return nm in ("dict", "list", "set", "defaultdict", "OrderedDict", "deque", "MarketDict", "AssetDict")
+    return False
+
+
 def _writes_through(node: ast.AST, root_test) -> List[ast.AST]:
     """Statements / calls inside `node` that mutate an object reached through an expression accepted by root_test."""
     out = []
@@ -120,7 +131,13 @@ def fresh_rule(model: Model, res, rule: str = "R-FRESH", allow: Optional[Dict[st
             for nm in mod_mut:
                 if nm in local_names:
                     continue
-                ws = _writes_through(f.node, lambda b, nm=nm: isinstance(b, ast.Name) and b.id == nm)
+                # the object itself, or a local bound to it without a copy (`m = TEMPLATE; m[k] = v` / `m |= {...}` write the
+                # module's one object)
+                roots = {nm} | {t.id for s in ast.walk(f.node) if isinstance(s, ast.Assign) and isinstance(s.value, ast.Name) and s.value.id == nm
+                                for t in s.targets if isinstance(t, ast.Name)}
+                ws = _writes_through(f.node, lambda b, roots=roots: isinstance(b, ast.Name) and b.id in roots)
+                ws += [s for s in ast.walk(f.node) if isinstance(s, ast.AugAssign) and isinstance(s.target, ast.Name)
+                       and s.target.id in (roots - {nm})]
                 if ws:
                     report("S3", f.loc(ws[0]), f.qualname, f"module object {nm}",
                            f"{f.qualname} mutates the module-level object `{nm}` (`{ast.unparse(ws[0])[:60]}`): its result depends on "
@@ -231,6 +248,7 @@ def fresh_rule(model: Model, res, rule: str = "R-FRESH", allow: Optional[Dict[st
             if not cand:
                 continue
             init = c.methods.get("__init__")
+            empties = {nm for nm, st in cand.items() if not c.is_dataclass and _is_empty_container(st.value)}
             rebound = set()
             if init is not None:
                 for s in ast.walk(init.node):
@@ -269,6 +287,13 @@ def fresh_rule(model: Model, res, rule: str = "R-FRESH", allow: Optional[Dict[st
                                 if w:
                                     ws += w
                                     who = who or f
+                if not ws and nm in empties:
+                    # an EMPTY container on the class is only useful by being filled - through instances (the repository's own
+                    # code or the user's subclass: `self.triggers.append(...)`), all of which share the one object
+                    report("S2", f"{m.relpath}:{st.lineno}", f"{c.name}.{nm}", f"class attribute {nm}={ast.unparse(st.value)[:30]}",
+                           f"{c.name}.{nm} is an empty mutable container bound ONCE in the class body and never rebound per instance in "
+                           f"__init__: whatever is put into it through one instance (by the library or by a user's subclass) is seen by "
+                           f"every other instance in the process")
                 if ws:
                     report("S2", (who.loc(ws[0]) if who else f"{m.relpath}:{st.lineno}"), f"{c.name}.{nm}", f"class attribute {nm}={ast.unparse(st.value)[:30]}",
                            f"{c.name}.{nm} is bound ONCE in the class body to a mutable object (`{ast.unparse(st.value)[:40]}`) and is mutated "
@@ -282,4 +307,8 @@ def fresh_rule(model: Model, res, rule: str = "R-FRESH", allow: Optional[Dict[st
     res.ob(rule, f"no shared mutable state is written in {list(scope) or 'the repository'} (+ shared plumbing): default arguments, class "
                  f"attributes, module objects, closure cells ({n} sites examined)", "demeter/", ok=not findings)
     res.units["fresh_state_sites_examined"] = n
+    from .world import world_rule
+    if "R-WORLD" not in res.rules:
+        res.rules.append("R-WORLD")
+    world_rule(model, res, scope=scope)
     return n, len(findings)
